@@ -100,6 +100,12 @@ func FindModuleByPrefix(n Node, prefix string) *Module {
 		return nil
 	}
 	mod := RootNode(n)
+	if mod == nil {
+		// A node that stands in no module (the *Statement of an extension,
+		// the error entry that ToEntry returns for one): no prefix means
+		// anything there.
+		return nil
+	}
 
 	if prefix == "" || prefix == mod.GetPrefix() {
 		return mod
